@@ -171,7 +171,7 @@ def write_if_changed(path, content):
 
 def parse_dump(path):
     """output of `tm-harness tables`: the real functions evaluated on their whole domain"""
-    keys, chars, rows = [], [], {}
+    keys, chars, rows, builtins = [], [], {}, []
     ok = False
     for line in open(path, encoding="utf-8"):
         t = line.split()
@@ -183,11 +183,40 @@ def parse_dump(path):
             chars.append((int(t[1]), t[2] == "true", int(t[3])))
         elif t[0] == "ROW":
             rows[t[1]] = [int(x) for x in t[2:]]
+        elif t[0] == "BUILTIN" and len(t) >= 3:
+            builtins.append((t[1], json.loads(line.split(" ", 2)[2])))
         elif t[0] == "END":
             ok = True
     if not ok or len(keys) < 100:
         raise TranslateError("table dump incomplete")
-    return keys, chars, rows
+    return keys, chars, rows, builtins
+
+
+def coq_str(u):
+    """a Rust/JSON string as a TM.Json.str term (list of Unicode scalars)"""
+    if all(32 <= ord(c) <= 126 and c != '"' for c in u):
+        return '(lit "%s")' % u
+    return "[" + "; ".join(str(ord(c)) for c in u) + "]%N"
+
+
+def coq_json(v):
+    if v is None:
+        return "JNull"
+    if v is True or v is False:
+        return "(JBool %s)" % ("true" if v else "false")
+    if isinstance(v, int):
+        return "(JNum (Some (%d)%%Z))" % v if -2**63 <= v < 2**63 else "(JNum None)"
+    if isinstance(v, float):
+        return "(JNum None)"
+    if isinstance(v, str):
+        return "(JStr %s)" % coq_str(v)
+    if isinstance(v, list):
+        return "(JArr [" + "; ".join(coq_json(x) for x in v) + "])"
+    if isinstance(v, dict):
+        # serde_json's Map is a BTreeMap: sorted by key bytes
+        items = sorted(v.items(), key=lambda kv: kv[0].encode("utf-8"))
+        return "(JObj [" + "; ".join("(%s, %s)" % (coq_str(k), coq_json(x)) for k, x in items) + "])"
+    raise TranslateError("unexpected JSON value %r" % (v,))
 
 
 def main():
@@ -292,6 +321,14 @@ def main():
         else:
             rw += "Definition row_%s : option (list N) := Some [%s].\n" % (name, "; ".join(str(codes[k]) for k in keys))
     write_if_changed(os.path.join(GEN, "Rows.v"), rw)
+
+    if dump is not None:
+        bl = "(* GENERATED by tools/translate.py from /repo (DEFAULT_LAYOUTS as serde_json parses them) - do not edit *)\n"
+        bl += "From TM Require Import Json.\nFrom Coq Require Import List String.\nImport ListNotations.\nOpen Scope string_scope.\n\n"
+        bl += "Definition builtin_layouts : list (string * json) := [\n"
+        bl += ";\n".join('  ("%s", %s)' % (n, coq_json(j)) for n, j in dump[3])
+        bl += "\n].\n"
+        write_if_changed(os.path.join(GEN, "Builtins.v"), bl)
 
     tables = {
         "keys": [{"ident": i, "code": n, "serde": s} for i, n, s in entries],
